@@ -159,4 +159,49 @@ theorem vanished_source_is_conflict (mv : Loc → TxId → Option Entry) (i : Tx
   rw [hgone]
   simpa using hmv
 
+/-! ### Non-vacuity of `vanished_source_is_conflict`: tx 0 sets x; tx 1 writes y := 7 only while x is
+    unset; tx 2 stores y + 1.  tx 1 runs first (x unset, publishes y), tx 2 reads y from tx 1's
+    entry, tx 0 publishes x, tx 1 fails validation, is re-executed WITHOUT writing y and its stale
+    entry is removed.  When tx 2 is validated its read source is gone and no earlier writer is
+    left: the premises of the theorem hold in this reachable state, the read is a conflict, tx 2
+    is re-executed, and the outcomes are the in-order ones (z = 1, not 8). -/
+
+def vanishParams : Params :=
+  { n := 3,
+    txs := fun i =>
+      if i = 0 then .done [(0, 1)] 0
+      else if i = 1 then .read 0 (fun x => if x = 0 then .done [(1, 7)] 0 else .done [] 0)
+      else .read 1 (fun y => .done [(2, y + 1)] 0),
+    base := fun _ => 0 }
+
+def vanishPrefix : List Act :=
+  [ .claimExec 1, .execRead 1, .execFetch 1, .execFinish 1, .publishOne 1 1, .endPublish 1,
+    .recordResult 1 false, .tailTs 1, .tailLts 1,
+    .claimExec 2, .execRead 2, .execFinish 2, .publishOne 2 2, .endPublish 2, .recordResult 2 false,
+    .tailTs 2, .tailLts 2,
+    .claimExec 0, .execFinish 0, .publishOne 0 0, .endPublish 0, .recordResult 0 false, .tailTs 0,
+    .tailLts 0,
+    .claimVal 0, .valTs 0, .endScan 0, .finalize, .commit,
+    .claimVal 1, .valTs 1, .valCheck 1 0, .endScan 1, .markOne 1 1, .endValMark 1, .tailTs 1,
+    .tailLts 1,
+    .claimExec 1, .execRead 1, .execFinish 1, .endPublish 1, .removeOne 1 1, .recordResult 1 false,
+    .valTs 1, .valCheck 1 0, .endScan 1, .finalize, .commit,
+    .claimVal 2, .valTs 2 ]
+
+def vanishSuffix : List Act :=
+  [ .valCheck 2 0, .endScan 2, .markOne 2 2, .endValMark 2, .tailTs 2,
+    .claimExec 2, .execRead 2, .execFetch 2, .execFinish 2, .publishOne 2 2, .endPublish 2,
+    .recordResult 2 false, .valTs 2, .valCheck 2 0, .endScan 2, .finalize, .commit ]
+
+example : (run vanishParams init vanishPrefix).map (fun s =>
+      match s.phase 2 with
+      | .valScan _ _ (r :: _) _ =>
+          r.loc == 1 && r.ver == some (1, 1) && r.val == 7 &&
+            (resolve s.mv 2 r.loc).isNone && !readOk s.mv 2 r
+      | _ => false) = some true := by decide
+
+example : (run vanishParams init (vanishPrefix ++ vanishSuffix)).map
+      (fun s => (s.fin, s.com, s.outcomes)) =
+    some (3, 3, [.ok [(0, 1)] 0, .ok [] 0, .ok [(2, 1)] 0]) := by decide
+
 end Grevm.Sched
